@@ -11,6 +11,7 @@
 //	R:<mode>:<rcode>:<flags>:<an>:<ns>:<ex>:<opt>
 //	    mode    e = reply built with SetReply(request as the handler sees it)
 //	            n = the handler writes nothing
+//	            p = the handler panics (the recovery middleware answers)
 //	    flags   subset of a(AD) A(AA) t(TC) R(RA) z(Z), "-" for none
 //	    an/ns/ex "-" | rec;rec…   rec = <K>.<id>.<p>.<o>.<clen>.<ulen> | O
 //	            K: S=RRSIG N=NSEC 3=NSEC3 A=other (TXT); p = payload bytes;
@@ -373,7 +374,7 @@ func optLen(o []aOption) int {
 // buildUpstream constructs the response the scripted handler writes for the
 // request it sees (req is the message as it reached the handler).
 func buildUpstream(r aR, req *dns.Msg) *dns.Msg {
-	if r.mode == 'n' {
+	if r.mode == 'n' || r.mode == 'p' {
 		return nil
 	}
 	m := new(dns.Msg)
